@@ -13,7 +13,7 @@ cargo test --offline -p ruzstd --test demo 2>&1 | grep -E "^test result|error" |
 R0=${PIPESTATUS[0]}
 git apply $OUT/patch.diff || { echo "patch does not apply"; exit 1; }
 echo "== demo WITH patch (must fail)"
-cargo test --offline -p ruzstd --test demo 2>&1 | grep -E "^test result|panicked|error\[" | head -4
+cargo test --offline -p ruzstd --test demo 2>&1 | grep -E "^test result|error\[" | head -4
 rm -f ruzstd/tests/demo.rs; rmdir ruzstd/tests 2>/dev/null
 echo "== test suite WITH patch (must pass)"
 cargo test --workspace --no-fail-fast --offline 2>&1 | grep -E "^test result|FAILED" | head -5
